@@ -1,4 +1,6 @@
 pub(crate) use self::decoder::Decoder;
+#[cfg(feature = "verif-hooks")]
+pub(crate) use self::encoding::Encoding;
 
 mod decoder;
 mod encoding;
